@@ -4,3 +4,7 @@ UNITS = [
        assumed=["supporting static fact, not a contract proof: symbol table and goto program of all 22 translation units of the three libraries as compiled by goto-cc (x86-64 configuration of os.h; TRAIN_*/DEBUG_MALLOC/ANALYSIS blocks are not compiled, as in the real build)"],
        note="every object with static storage duration is const-qualified, or is never assigned and never address-taken by any function (no shared mutable state between instances)"),
 ]
+
+# frame conditions counted for C18: the write-set (assigns clause) obligations of these units
+FRAME = r"assigns|assignable|write_set|frees"
+EXTRA_PROPS = {n: {"C18": FRAME} for n in ["blk_blockin", "blk_restart", "blk_read", "blk_pcmout", "syn_synthesis", "syn_trackonly", "syn_blocksize", "map0_unpack", "info_unpack_info", "enc_ctl"]}
